@@ -111,6 +111,7 @@ def run(ctx):
     ctx.both([f'bundle.write.plain {b}' for b in bundles[::3]])
     files = [x.split(' ')[1] for x in g if x and x.startswith('ok ')]
     g2, m2 = read_stage(ctx, files)
+    read_stage(ctx, files[::3], op='bundle.read.buffer')      # caller-owned buffer, scribbled over before the result is printed
     # fixpoint: re-serialize what was read and read again
     back = [x[3:] for x in g2 if x and x.startswith('ok ')]
     g3, m3 = ctx.both([f'bundle.write {b}' for b in back])
